@@ -17,6 +17,8 @@ FRAGS = ["cond", "begin", "do", "def", "case", "mix"]
 BUDGET = {"quick": {"cond": 4, "begin": 4, "do": 4, "def": 5, "case": 4, "mix": 4},
           "thorough": {"cond": 5, "begin": 5, "do": 5, "def": 6, "case": 5, "mix": 5}}
 
+RANDOM = {"quick": (1500, 40), "thorough": (25000, 50)}
+
 CFG = """SPECIFICATION Spec
 CONSTANTS
   Frag = "%s"
@@ -69,10 +71,23 @@ def run(tier, seed):
         programs += s["judged"]
         if lines:
             rep.sample(json.loads(lines[len(lines) // 2]))
+    # impl -> spec: seeded programs far beyond the enumeration bound, judged by TLC evaluating the reference
+    nrand, budget = RANDOM[tier]
+    t = os.path.join(wd, "rand.trace.ndjson")
+    summ = xv_json(["prog-record", t, str(seed), str(nrand), str(budget)])
+
+    def on_reject(rid, ln, ev, lines):
+        rep.violation("prog:" + ev["src"], f"seeded program `{ev['src']}`: observed {ev['res']}/{ev['cls']} stack {json.dumps(ev['ds'])[:200]} is not what the structural reference computes", 
+                      {"src": ev["src"], "observed": {k: ev[k] for k in ("res", "cls", "ds", "out", "vars")}})
+    tstates, rej = vlib.validate_runs("Trace_Source", t, wd, on_reject, name="Trace_Source", max_rounds=20)
+    programs += summ["programs"]
+    rep.sample({"seeded": json.loads(open(t).readline())["src"]})
     nontrivial = kinds.get("done", 0) + kinds.get("timeout", 0)
     rep.add(states=states, transitions=trans, traces_validated_against_impl=programs, evaluations=programs,
             distinct_nontrivial=nontrivial, exhaustive=True, kinds=kinds,
-            rule="every program derivable from the fragment grammar up to the phrase budget "
+            trace_states=tstates, seeded_programs=summ["programs"],
+            rule=f"plus {nrand} seeded programs of up to {budget + 6} tokens (nested definitions, repeated local names, every control structure) judged by TLC evaluating Src.tla; "
+                 "every program derivable from the fragment grammar up to the phrase budget "
                  f"{BUDGET[tier]} (TLC, generation by actions); distinct by construction; non-trivial = "
                  "terminates normally or is structurally non-terminating (programs failing with an error are "
                  "judged too but not counted)")
